@@ -28,6 +28,14 @@ TRANSLATED = ["_calc_stopping_criterion_birgin_raydan_vectors", "_calc_stopping_
               "calc_proj_physical", "calc_proj_physical_with_var"]
 
 
+SPECIAL = {"$err": "N_err", "$printed": "N_printed", "$break": "N_break", "$ret": "N_ret"}      # fixed in C05_PySem.v
+
+
+def nm(x):
+    """Coq name of a Python variable: the notation N_<x> (a positive number, see the table emitted at the top of the file)"""
+    return SPECIAL.get(x, "N_" + x)
+
+
 class Unsupported(Exception):
     pass
 
@@ -78,7 +86,7 @@ class Fn:
             fail(fdef, "unsupported parameter kinds")
         self.nfor = 0
         self.pre = []
-        self.vars = set(self.params) | {"$err", "$printed", "$break", "$ret"}
+        self.vars = set(self.params) | set(SPECIAL)
         for node in ast.walk(fdef):
             if isinstance(node, ast.Name) and isinstance(node.ctx, ast.Store):
                 self.vars.add(node.id)
@@ -92,7 +100,7 @@ class Fn:
         if isinstance(x, ast.Name):
             if not isinstance(x.ctx, ast.Load):
                 fail(x, "name not in load context")
-            return '(e "%s")' % x.id
+            return '(e %s)' % nm(x.id)
         if isinstance(x, ast.Constant):
             v = x.value
             if v is None:
@@ -168,10 +176,10 @@ class Fn:
         if isinstance(f.value, ast.Name) and f.value.id == "self" and f.attr in self.known:
             if kws or len(args) != self.known[f.attr]:
                 fail(x, "call of translated method %s with keywords / wrong arity" % f.attr)
-            return "(call_ret (gen_%s %s))" % (f.attr, " ".join(['(e "self")'] + args))
+            return "(call_ret (gen_%s %s))" % (f.attr, " ".join(['(e N_self)'] + args))
         if isinstance(f.value, ast.Name) and f.value.id in ("logger", "logging"):
             fail(x, "logging call inside an expression")
-        recv = self.expr(f.value) if not (isinstance(f.value, ast.Name) and f.value.id == "self") else '(e "self")'
+        recv = self.expr(f.value) if not (isinstance(f.value, ast.Name) and f.value.id == "self") else '(e N_self)'
         name = ("" if (isinstance(f.value, ast.Name) and f.value.id == "self") else ".") + f.attr
         if kws:
             name += "|" + ",".join(k.arg for k in kws)
@@ -199,11 +207,11 @@ class Fn:
                     fail(st, "return that is not in tail position")
                 if st.value is None:
                     fail(st, "bare return")
-                out.append('%ss_assign "$ret" %s' % (pad, self.fe(st.value)))
+                out.append('%ss_assign N_ret %s' % (pad, self.fe(st.value)))
                 i += 1; continue
             if isinstance(st, ast.If):
                 if in_for and last and len(st.body) == 1 and isinstance(st.body[0], ast.Break) and not st.orelse:
-                    out.append('%ss_ifs %s (seq [s_assign "$break" (fun e => VBool true)]) (seq [])' % (pad, self.fe(st.test)))
+                    out.append('%ss_ifs %s (seq [s_assign N_break (fun e => VBool true)]) (seq [])' % (pad, self.fe(st.test)))
                     i += 1; continue
                 if always_returns(st.body) and not st.orelse and not last:
                     # early return: the remaining statements are the else branch
@@ -238,25 +246,25 @@ class Fn:
                 b = self.block(st.body, 1, True, False)
                 # the loop body is emitted as a definition of its own so that proofs can name it
                 self.pre.append("Definition gen_%s__loop_body : env F -> env F :=\n%s." % (self.f.name, b))
-                out.append('%ss_fors fn_vars "%s" %s gen_%s__loop_body' % (pad, st.target.id, self.fe(it.args[0]), self.f.name))
+                out.append('%ss_fors fn_vars %s %s gen_%s__loop_body' % (pad, nm(st.target.id), self.fe(it.args[0]), self.f.name))
                 i += 1; continue
             if isinstance(st, ast.Assign):
                 tg = st.targets
                 if all(isinstance(t, ast.Name) for t in tg):
                     if len(tg) == 1:
-                        out.append('%ss_assign "%s" %s' % (pad, tg[0].id, self.fe(st.value)))
+                        out.append('%ss_assign %s %s' % (pad, nm(tg[0].id), self.fe(st.value)))
                     else:                                           # the same value to every target, left to right
-                        out.append("%ss_bind %s (fun v => seq [%s])" % (pad, self.fe(st.value), "; ".join('s_assign "%s" (fun e => v)' % t.id for t in tg)))
+                        out.append("%ss_bind %s (fun v => seq [%s])" % (pad, self.fe(st.value), "; ".join('s_assign %s (fun e => v)' % nm(t.id) for t in tg)))
                     i += 1; continue
                 if len(tg) == 1 and isinstance(tg[0], ast.Tuple) and all(isinstance(t, ast.Name) for t in tg[0].elts):
                     m = len(tg[0].elts)
                     out.append("%ss_bind %s (fun v => seq [%s])" % (pad, self.fe(st.value), "; ".join(
-                        's_assign "%s" (fun e => v_unpack %d %d v)' % (t.id, m, j) for j, t in enumerate(tg[0].elts))))
+                        's_assign %s (fun e => v_unpack %d %d v)' % (nm(t.id), m, j) for j, t in enumerate(tg[0].elts))))
                     i += 1; continue
                 if len(tg) == 1 and isinstance(tg[0], ast.Attribute) and isinstance(tg[0].value, ast.Name) and tg[0].value.id != "self":
-                    nm = tg[0].value.id
-                    self.vars.add(nm)
-                    out.append('%ss_assign "%s" (fun e => oracle "setattr.%s" [e "%s"; %s])' % (pad, nm, tg[0].attr, nm, self.expr(st.value)))
+                    nm_ = tg[0].value.id
+                    self.vars.add(nm_)
+                    out.append('%ss_assign %s (fun e => oracle "setattr.%s" [e %s; %s])' % (pad, nm(nm_), tg[0].attr, nm(nm_), self.expr(st.value)))
                     i += 1; continue
                 fail(st, "assignment target outside the subset")
             if isinstance(st, ast.Expr) and isinstance(st.value, ast.Call):
@@ -273,12 +281,12 @@ class Fn:
                         if isinstance(p, ast.FormattedValue) and isinstance(p.value, ast.Name) and p.format_spec is None and p.conversion == -1:
                             names.append(p.value.id); continue
                         fail(st, "print argument that is not an f-string of plain names")
-                    out.append('%ss_prints (fun e => [%s])' % (pad, "; ".join('e "%s"' % nm for nm in names)))
+                    out.append('%ss_prints (fun e => [%s])' % (pad, "; ".join('e %s' % nm(x_) for x_ in names)))
                     i += 1; continue
                 if (isinstance(c.func, ast.Attribute) and c.func.attr == "append" and isinstance(c.func.value, ast.Name)
                         and len(c.args) == 1 and not c.keywords):
-                    nm = c.func.value.id
-                    out.append('%ss_assign "%s" (fun e => v_append (e "%s") %s)' % (pad, nm, nm, self.expr(c.args[0])))
+                    nm_ = c.func.value.id
+                    out.append('%ss_assign %s (fun e => v_append (e %s) %s)' % (pad, nm(nm_), nm(nm_), self.expr(c.args[0])))
                     i += 1; continue
                 fail(st, "expression statement outside the subset")
             fail(st, "statement outside the subset")
@@ -292,7 +300,7 @@ class Fn:
         ps = self.params
         lines = []
         vars_sorted = sorted(self.vars)
-        lines.append("Definition gen_%s__vars : list string := [%s]." % (name, "; ".join('"%s"' % v for v in vars_sorted)))
+        lines.append("Definition gen_%s__vars : list name := [%s]." % (name, "; ".join(nm(v) for v in vars_sorted)))
         # defaults
         d = self.f.args.defaults
         defs = []
@@ -301,9 +309,9 @@ class Fn:
         lines.append("Definition gen_%s__defaults : list (string * val F) := [%s]." % (name, "; ".join(defs)))
         init = "(@env0 F)"
         for p in ps:
-            init = '(upd "%s" %s %s)' % (p, "self" if p == "self" else "a_" + p, init)
+            init = '(upd %s %s %s)' % (nm(p), "self" if p == "self" else "a_" + p, init)
         lines.extend(self.pre)
-        lines.append("Definition gen_%s__body (fn_vars : list string) : env F -> env F :=\n%s." % (name, body))
+        lines.append("Definition gen_%s__body (fn_vars : list name) : env F -> env F :=\n%s." % (name, body))
         lines.append("Definition gen_%s %s : env F :=" % (name, " ".join("(%s : val F)" % ("self" if p == "self" else "a_" + p) for p in ps)))
         lines.append("  gen_%s__body gen_%s__vars %s." % (name, name, init))
         return "\n".join(lines)
@@ -329,15 +337,22 @@ def main():
         raise Unsupported("methods not found: %s" % missing)
     known = {}
     chunks = []
+    allvars = set()
     for name in TRANSLATED:
         fn = Fn(fdefs[name], dict(known))
         chunks.append("(* %s : quara/objects/qoperation.py line %d *)\n%s" % (name, fdefs[name].lineno, fn.emit()))
         known[name] = len(fn.params) - 1
+        allvars |= fn.vars
+    table = ["(* variable names: numbered in sorted order after the four fixed names of the semantics (1..4) *)"]
+    for i, v in enumerate(sorted(allvars - set(SPECIAL))):
+        if not v.isidentifier():
+            raise Unsupported("variable name %r" % v)
+        table.append("Notation N_%s := %d%%positive (only parsing)." % (v, i + 5))
     hdr = ["(* GENERATED by gen/c05_py2coq.py from %s — do not edit *)" % path,
            "From Coq Require Import List Arith Bool String ZArith.",
            "From QV.Core Require Import OF Sums Mat.",
            "From QV.Model Require Import C05_Dykstra C05_PySem.",
-           "Import ListNotations.", "Local Open Scope string_scope.", "",
+           "Import ListNotations.", "Local Open Scope string_scope.", ""] + table + ["",
            "Section Gen.",
            "Context (F : OF) (n : nat) (oracle : string -> list (val F) -> val F) (self_attr : string -> val F).", ""]
     open(out, "w").write("\n".join(hdr) + "\n" + "\n\n".join(chunks) + "\n\nEnd Gen.\n")
